@@ -331,7 +331,7 @@ impl Prop for SlotMapProp {
         "C19"
     }
     fn segments(&self, tier: Tier, _cfg: &str) -> Vec<Seg> {
-        let d = if tier == Tier::Quick { 5 } else { 6 };
+        let d = if tier == Tier::Quick { 6 } else { 8 };
         vec![
             Seg { name: format!("bfs-4keys-4values-depth{d}"), count: 1, what: "explicit-state BFS from the empty map over insert(k,v)/remove(k) on 4 keys x 4 values, states merged on (implementation representation, reference map)".into() },
             Seg { name: "binary-ops-all-pairs-4x4".into(), count: 625, what: "one index = one left operand among all 625 partial maps 4->4; all 625 right operands: compose, compose_partial, compose_fresh, union, try_union, ==, cmp, hash".into() },
@@ -343,7 +343,7 @@ impl Prop for SlotMapProp {
         vec!["all_625_maps_reached", "spilled_to_heap_and_back"]
     }
     fn rule(&self) -> String {
-        "Explicit-state search on the real SlotMap against a BTreeMap: BFS over insert/remove on 4 keys x 4 values (depth 5 quick / 6 thorough), deduplicated on (implementation representation, reference map); in every state all accessors, inverse, identity, rebuilds in three orders, ==/Hash/Ord are compared with the reference; all pairs of the 625 maps for the binary operations; all triples over 3 slots for associativity; BFS of depth 3 around the inline-capacity boundary from 36 start maps. Non-trivial = state with a non-empty map.".into()
+        "Explicit-state search on the real SlotMap against a BTreeMap: BFS over insert/remove on 4 keys x 4 values (depth 6 quick / 8 thorough), deduplicated on (implementation representation, reference map); in every state all accessors, inverse, identity, rebuilds in three orders, ==/Hash/Ord are compared with the reference; all pairs of the 625 maps for the binary operations; all triples over 3 slots for associativity; BFS of depth 3 around the inline-capacity boundary from 36 start maps. Non-trivial = state with a non-empty map.".into()
     }
     fn assumptions(&self) -> Vec<String> {
         vec!["`union` on incompatible maps and `compose`/`inverse` outside their documented domain (non-matching key sets, non-bijections) are outside the reference model and are not compared".into(), "the 'random longer sequences' of the quantifier are replaced by the exhaustive inline-capacity boundary sweep".into()]
@@ -361,7 +361,7 @@ impl Prop for SlotMapProp {
     }
     fn exec(&self, tier: Tier, _cfg: &str, seg: usize, idx: u64) -> Exec {
         let mut out = Exec::default();
-        let depth = if tier == Tier::Quick { 5 } else { 6 };
+        let depth = if tier == Tier::Quick { 6 } else { 8 };
         let r = fresh_thread(move || {
             let mut fails = Vec::new();
             let mut evals = 0u64;
